@@ -74,10 +74,16 @@ theorem ps_getLastD (acc : Nat) (ls : List Nat) : (ps acc ls).getLastD 0 = acc +
 
 theorem ps_getD (acc : Nat) (ls : List Nat) (k : Nat) (h : k ≤ ls.length) :
     (ps acc ls).getD k 0 = acc + (ls.take k).sum := by
-  have := drop_ps acc ls k h
-  have h2 : (ps acc ls).getD k 0 = ((ps acc ls).drop k).headD 0 := by
-    simp [List.getD_eq_getElem?_getD, List.headD, List.head?_drop]
-  rw [h2, this, ps_headD]
+  induction ls generalizing acc k with
+  | nil => simp at h; subst h; simp [ps]
+  | cons x xs ih =>
+    cases k with
+    | zero => simp [ps]
+    | succ k' =>
+      simp at h
+      have := ih (acc + x) k' h
+      simp only [ps, List.getD_cons_succ, List.take_succ_cons, List.sum_cons, this]
+      omega
 
 /-- cell lengths recovered from the prefix sums. -/
 theorem counts_ps (acc : Nat) (ls : List Nat) :
@@ -86,21 +92,15 @@ theorem counts_ps (acc : Nat) (ls : List Nat) :
   | nil => simp [ps]
   | cons x xs ih =>
     have h := ih (acc + x)
-    cases hxs : ps (acc + x) xs with
-    | nil => exact absurd hxs (ps_ne_nil _ _)
+    cases xs with
+    | nil => simp [ps]
     | cons y ys =>
-      have hy : y = acc + x := by
-        have := ps_headD (acc + x) xs; rw [hxs] at this; simpa using this
-      rw [hxs] at h
-      simp [ps, hxs, List.dropLast] at h ⊢
-      cases ys with
-      | nil =>
-        cases xs with
-        | nil => simp; omega
-        | cons _ _ => simp [ps] at hxs
-      | cons z zs =>
-        simp [List.dropLast] at h ⊢
-        refine ⟨by omega, h⟩
+      simp only [ps, List.tail_cons] at h ⊢
+      rw [List.dropLast_cons_of_ne_nil (by simp)]
+      rw [List.dropLast_cons_of_ne_nil (ps_ne_nil _ _)] at h ⊢
+      simp only [List.zipWith_cons_cons] at h ⊢
+      rw [h]
+      simp
 
 /-! ### flatten / segments -/
 
@@ -141,7 +141,7 @@ theorem gather_range {β : Type} (xs : List β) (s c : Nat) :
   induction c with
   | zero => simp
   | succ c ih =>
-    rw [List.range_succ, List.flatMap_append, ih, List.take_succ]
+    rw [List.range_succ, List.flatMap_append, ih, List.take_add_one]
     simp [List.getElem?_drop]
 
 /-! ### rows of equal length -/
@@ -182,5 +182,324 @@ theorem uniform_flatten_length {β : Type} (rows : List (List β)) (C : Nat)
     have hr : r.length = C := h r (by simp)
     simp [List.length_flatten] at ih ⊢
     rw [ih (fun r hr => h r (by simp [hr])), hr, Nat.add_mul]; omega
+
+end TFVerif
+
+namespace TFVerif
+
+theorem flatMap_congr' {ι δ : Type} (l : List ι) (f g : ι → List δ) (h : ∀ x ∈ l, f x = g x) :
+    l.flatMap f = l.flatMap g := by
+  induction l with
+  | nil => rfl
+  | cons x xs ih =>
+    simp only [List.flatMap_cons]
+    rw [h x (by simp), ih (fun y hy => h y (by simp [hy]))]
+
+theorem flatten_flatMap' {ι δ : Type} (l : List ι) (f : ι → List (List δ)) :
+    (l.flatMap f).flatten = l.flatMap fun x => (f x).flatten := by
+  induction l with
+  | nil => rfl
+  | cons x xs ih => simp [List.flatMap_cons, ih]
+
+theorem flatMap_singleton_map {ι δ : Type} (l : List ι) (f : ι → δ) :
+    l.flatMap (fun x => [f x]) = l.map f := by
+  induction l with
+  | nil => rfl
+  | cons x xs ih => simp [List.flatMap_cons, ih]
+
+/-! ### gathers -/
+
+theorem gatherBA_eq {β : Type} (values : List β) (starts counts : List Nat) :
+    gatherBA values starts counts =
+      counts.zipIdx.flatMap fun (c, i) => (values.drop (starts.getD i 0)).take c := by
+  unfold gatherBA batchedArange
+  rw [List.flatMap_assoc]
+  congr 1
+  funext ⟨c, i⟩
+  simp only [List.flatMap_map]
+  exact gather_range values (starts.getD i 0) c
+
+/-- indexing a mapped list through `zipIdx`/`getD` is just mapping. -/
+theorem zipIdx_flatMap_getD_map {ι γ δ : Type} (js pre : List ι) (f : ι → Nat) (g : ι → Nat)
+    (F : Nat → Nat → List δ) :
+    ((js.map g).zipIdx pre.length).flatMap (fun (c, i) => F c (((pre ++ js).map f).getD i 0))
+      = js.flatMap fun j => F (g j) (f j) := by
+  induction js generalizing pre with
+  | nil => simp
+  | cons j js ih =>
+    simp only [List.map_cons, List.zipIdx_cons, List.flatMap_cons]
+    have h1 : ((pre ++ j :: js).map f).getD pre.length 0 = f j := by
+      simp [List.getD_eq_getElem?_getD, List.getElem?_append_right]
+    rw [h1]
+    congr 1
+    have := ih (pre ++ [j])
+    simp only [List.length_append, List.length_cons, List.length_nil, List.append_assoc,
+      List.cons_append, List.nil_append] at this
+    exact this
+
+theorem gatherBA_map {ι β : Type} (values : List β) (js : List ι) (f g : ι → Nat) :
+    gatherBA values (js.map f) (js.map g) = js.flatMap fun j => (values.drop (f j)).take (g j) := by
+  rw [gatherBA_eq]
+  have := zipIdx_flatMap_getD_map (γ := Nat) js [] f g (fun c s => (values.drop s).take c)
+  simpa using this
+
+/-! ### canonical storage of a list of cells -/
+
+def MNT.ofCells {α : Type} (R C : Nat) (cells : List (List α)) : MNT α :=
+  { numRows := R, numCols := C, values := cells.flatten, offset := ps 0 (cells.map List.length) }
+
+theorem MNT.ofGrid_eq {α : Type} (g : Grid α) :
+    MNT.ofGrid g = MNT.ofCells g.rows.length g.numCols g.rows.flatten := by
+  simp [MNT.ofGrid, MNT.ofCells, psums_eq]
+
+theorem ofCells_counts {α : Type} (R C : Nat) (cells : List (List α)) :
+    (MNT.ofCells R C cells).counts = cells.map List.length := by
+  simp [MNT.counts, MNT.ofCells, counts_ps]
+
+theorem ofCells_off {α : Type} (R C : Nat) (cells : List (List α)) (k : Nat) (h : k ≤ cells.length) :
+    (MNT.ofCells R C cells).offset.getD k 0 = ((cells.take k).map List.length).sum := by
+  simp only [MNT.ofCells]
+  rw [ps_getD 0 _ k (by simpa using h)]
+  simp [List.map_take]
+
+/-- the value segment between the offsets of cell `k` and cell `k+n`. -/
+theorem ofCells_segment {α : Type} (R C : Nat) (cells : List (List α)) (k n : Nat)
+    (h : k + n ≤ cells.length) :
+    let m := MNT.ofCells R C cells
+    (m.values.drop (m.offset.getD k 0)).take (m.offset.getD (k + n) 0 - m.offset.getD k 0)
+      = ((cells.drop k).take n).flatten := by
+  intro m
+  have hk : k ≤ cells.length := by omega
+  rw [ofCells_off R C cells k hk, ofCells_off R C cells (k + n) h]
+  have : ((cells.take (k + n)).map List.length).sum - ((cells.take k).map List.length).sum
+      = (((cells.drop k).take n).map List.length).sum := by
+    rw [List.take_add, List.map_append, List.sum_append]; omega
+  rw [this]
+  exact segment_flatten cells k n
+
+theorem ofCells_count_at {α : Type} (R C : Nat) (cells : List (List α)) (k : Nat) (h : k < cells.length) :
+    let m := MNT.ofCells R C cells
+    m.offset.getD (k + 1) 0 - m.offset.getD k 0 = (cells.getD k []).length := by
+  intro m
+  rw [ofCells_off R C cells k (by omega), ofCells_off R C cells (k + 1) (by omega)]
+  rw [List.take_add_one, List.map_append, List.sum_append]
+  simp [List.getD_eq_getElem?_getD, h]
+
+end TFVerif
+
+namespace TFVerif
+
+/-! ### the primitives on canonical storage (cell level) -/
+
+theorem rowNarrow_ofCells {α : Type} (R C : Nat) (cells : List (List α)) (s l : Nat)
+    (hlen : cells.length = R * C) (h : s + l ≤ R) :
+    (MNT.ofCells R C cells).rowNarrow s l = MNT.ofCells l C ((cells.drop (s * C)).take (l * C)) := by
+  have h1 : s * C ≤ (cells.map List.length).length := by
+    simp [hlen]; exact Nat.mul_le_mul_right C (by omega)
+  have h2 : l * C ≤ ((cells.map List.length).drop (s * C)).length := by
+    simp [hlen]
+    have : (s + l) * C ≤ R * C := Nat.mul_le_mul_right C h
+    rw [Nat.add_mul] at this; omega
+  have hoff : pySlice (ps 0 (cells.map List.length)) (s * C) ((s + l) * C + 1)
+      = ps ((cells.map List.length).take (s * C)).sum
+           (((cells.map List.length).drop (s * C)).take (l * C)) := by
+    unfold pySlice
+    have : (s + l) * C + 1 - s * C = l * C + 1 := by rw [Nat.add_mul]; omega
+    rw [this, drop_ps 0 _ _ h1, take_ps _ _ _ h2]; simp
+  unfold MNT.rowNarrow MNT.ofCells
+  simp only [hoff, ps_headD, ps_getLastD, ps_map_sub]
+  have hv : pySlice cells.flatten ((cells.map List.length).take (s * C)).sum
+      (((cells.map List.length).take (s * C)).sum
+        + (((cells.map List.length).drop (s * C)).take (l * C)).sum)
+      = ((cells.drop (s * C)).take (l * C)).flatten := by
+    unfold pySlice
+    rw [Nat.add_sub_cancel_left]
+    have := segment_flatten cells (s * C) (l * C)
+    simpa [List.map_take, List.map_drop] using this
+  rw [hv]
+  simp [List.map_take, List.map_drop]
+
+theorem singleIndexSelect0_eq_rowNarrow {α : Type} (m : MNT α) (i : Nat) :
+    m.singleIndexSelect i 0 = m.rowNarrow i 1 := by
+  simp [MNT.singleIndexSelect, MNT.rowNarrow]
+
+/-- every gather-shaped primitive: segments `(k j, n j)` of consecutive cells. -/
+theorem gather_ofCells {α ι : Type} (R C : Nat) (cells : List (List α)) (js : List ι)
+    (k n : ι → Nat) (h : ∀ j ∈ js, k j + n j ≤ cells.length) :
+    let m := MNT.ofCells R C cells
+    gatherBA m.values (js.map fun j => m.offset.getD (k j) 0)
+        (js.map fun j => m.offset.getD (k j + n j) 0 - m.offset.getD (k j) 0)
+      = (js.flatMap fun j => (cells.drop (k j)).take (n j)).flatten := by
+  intro m
+  rw [gatherBA_map, flatten_flatMap']
+  apply flatMap_congr'
+  intro j hj
+  exact ofCells_segment R C cells (k j) (n j) (h j hj)
+
+theorem counts_slices_ofCells {α ι : Type} (R C : Nat) (cells : List (List α)) (js : List ι)
+    (k n : ι → Nat) :
+    (js.flatMap fun j => pySlice (MNT.ofCells R C cells).counts (k j) (k j + n j))
+      = (js.flatMap fun j => (cells.drop (k j)).take (n j)).map List.length := by
+  rw [ofCells_counts, List.map_flatMap]
+  apply flatMap_congr'
+  intro j _
+  simp [pySlice, List.map_take, List.map_drop]
+
+end TFVerif
+
+namespace TFVerif
+
+theorem drop_take_one {β : Type} (l : List β) (k : Nat) (d : β) (h : k < l.length) :
+    (l.drop k).take 1 = [l.getD k d] := by
+  induction l generalizing k with
+  | nil => simp at h
+  | cons x xs ih =>
+    cases k with
+    | zero => simp
+    | succ k' => simp at h; simpa using ih k' h
+
+theorem rowIndexSelect_ofCells {α : Type} (R C : Nat) (cells : List (List α)) (idx : List Nat)
+    (hlen : cells.length = R * C) (hne : idx ≠ []) (hidx : ∀ i ∈ idx, i < R) :
+    (MNT.ofCells R C cells).rowIndexSelect idx
+      = MNT.ofCells idx.length C (idx.flatMap fun i => (cells.drop (i * C)).take C) := by
+  have hb : ∀ i ∈ idx, i * C + C ≤ cells.length := by
+    intro i hi
+    have : (i + 1) * C ≤ R * C := Nat.mul_le_mul_right C (hidx i hi)
+    rw [Nat.add_mul] at this; omega
+  unfold MNT.rowIndexSelect
+  have : idx.isEmpty = false := by cases idx <;> simp_all
+  simp only [this, Bool.false_eq_true, if_false]
+  have hv := gather_ofCells R C cells idx (fun i => i * C) (fun _ => C) hb
+  have ho := counts_slices_ofCells R C cells idx (fun i => i * C) (fun _ => C)
+  have e1 : ∀ i : Nat, (i + 1) * C = i * C + C := by intro i; rw [Nat.add_mul]; omega
+  have hC : (MNT.ofCells R C cells).numCols = C := rfl
+  simp only [hC, e1]
+  rw [hv, ho, psums_eq]
+  rfl
+
+theorem colNarrow_ofCells {α : Type} (R C : Nat) (cells : List (List α)) (s l : Nat)
+    (hlen : cells.length = R * C) (h : s + l ≤ C) :
+    (MNT.ofCells R C cells).colNarrow s l
+      = MNT.ofCells R l ((List.range R).flatMap fun r => (cells.drop (r * C + s)).take l) := by
+  unfold MNT.colNarrow
+  have hR : (MNT.ofCells R C cells).numRows = R := rfl
+  have hC : (MNT.ofCells R C cells).numCols = C := rfl
+  simp only [hR, hC]
+  by_cases h0 : R = 0
+  · subst h0
+    have : cells = [] := by simpa using hlen
+    subst this
+    simp [MNT.ofCells, ps]
+  · simp only [h0, if_false]
+    have hb : ∀ r ∈ List.range R, r * C + s + l ≤ cells.length := by
+      intro r hr
+      have hr' : r < R := by simpa using hr
+      have : (r + 1) * C ≤ R * C := Nat.mul_le_mul_right C hr'
+      rw [Nat.add_mul] at this; omega
+    have hv := gather_ofCells R C cells (List.range R) (fun r => r * C + s) (fun _ => l) hb
+    have ho := counts_slices_ofCells R C cells (List.range R) (fun r => r * C + s) (fun _ => l)
+    rw [hv, ho, psums_eq]
+    rfl
+
+theorem colIndexSelect_ofCells {α : Type} (R C : Nat) (cells : List (List α)) (idx : List Nat)
+    (hlen : cells.length = R * C) (hne : idx ≠ []) (hidx : ∀ c ∈ idx, c < C) :
+    (MNT.ofCells R C cells).colIndexSelect idx
+      = MNT.ofCells R idx.length
+          ((List.range R).flatMap fun r => idx.map fun c => cells.getD (c + r * C) []) := by
+  unfold MNT.colIndexSelect
+  have : idx.isEmpty = false := by cases idx <;> simp_all
+  simp only [this, Bool.false_eq_true, if_false]
+  have hR : (MNT.ofCells R C cells).numRows = R := rfl
+  have hC : (MNT.ofCells R C cells).numCols = C := rfl
+  simp only [hR, hC]
+  have hb : ∀ k ∈ (List.range R).flatMap (fun r => idx.map (· + r * C)), k < cells.length := by
+    intro k hk
+    simp only [List.mem_flatMap, List.mem_range, List.mem_map] at hk
+    obtain ⟨r, hr, c, hc, rfl⟩ := hk
+    have : (r + 1) * C ≤ R * C := Nat.mul_le_mul_right C hr
+    rw [Nat.add_mul] at this
+    have := hidx c hc
+    omega
+  have hv := gather_ofCells R C cells ((List.range R).flatMap fun r => idx.map (· + r * C))
+    (fun k => k) (fun _ => 1) (fun k hk => by have := hb k hk; omega)
+  have hsel : (((List.range R).flatMap fun r => idx.map (· + r * C)).flatMap
+        fun k => (cells.drop k).take 1)
+      = (List.range R).flatMap fun r => idx.map fun c => cells.getD (c + r * C) [] := by
+    rw [List.flatMap_assoc]
+    apply flatMap_congr'
+    intro r hr
+    rw [List.flatMap_map]
+    have : ∀ c ∈ idx, (cells.drop (c + r * C)).take 1 = [cells.getD (c + r * C) []] := by
+      intro c hc
+      apply drop_take_one
+      apply hb
+      simp only [List.mem_flatMap, List.mem_range, List.mem_map]
+      exact ⟨r, by simpa using hr, c, hc, rfl⟩
+    rw [flatMap_congr' idx _ _ this]
+    exact flatMap_singleton_map idx _
+  rw [hv, hsel]
+  have hcnt : (((List.range R).flatMap fun r => idx.map (· + r * C)).map fun k =>
+        (MNT.ofCells R C cells).offset.getD (k + 1) 0 - (MNT.ofCells R C cells).offset.getD k 0)
+      = ((List.range R).flatMap fun r => idx.map fun c => cells.getD (c + r * C) []).map List.length := by
+    rw [List.map_flatMap, List.map_flatMap]
+    apply flatMap_congr'
+    intro r hr
+    simp only [List.map_map]
+    apply List.map_congr_left
+    intro c hc
+    simp only [Function.comp]
+    apply ofCells_count_at
+    apply hb
+    simp only [List.mem_flatMap, List.mem_range, List.mem_map]
+    exact ⟨r, by simpa using hr, c, hc, rfl⟩
+  rw [hcnt, psums_eq]
+  rfl
+
+end TFVerif
+
+namespace TFVerif
+
+theorem singleIndexSelect1_ofCells {α : Type} (R C : Nat) (cells : List (List α)) (i : Nat)
+    (hlen : cells.length = R * C) (hi : i < C) :
+    (MNT.ofCells R C cells).singleIndexSelect i 1
+      = MNT.ofCells R 1 ((List.range R).map fun r => cells.getD (r * C + i) []) := by
+  unfold MNT.singleIndexSelect
+  have hR : (MNT.ofCells R C cells).numRows = R := rfl
+  have hC : (MNT.ofCells R C cells).numCols = C := rfl
+  simp only [hR, hC, Nat.one_ne_zero, if_false]
+  have hb : ∀ k ∈ (List.range R).map (fun r => r * C + i), k < cells.length := by
+    intro k hk
+    simp only [List.mem_map, List.mem_range] at hk
+    obtain ⟨r, hr, rfl⟩ := hk
+    have : (r + 1) * C ≤ R * C := Nat.mul_le_mul_right C hr
+    rw [Nat.add_mul] at this; omega
+  have hv := gather_ofCells R C cells ((List.range R).map fun r => r * C + i)
+    (fun k => k) (fun _ => 1) (fun k hk => by have := hb k hk; omega)
+  have hsel : (((List.range R).map fun r => r * C + i).flatMap fun k => (cells.drop k).take 1)
+      = (List.range R).map fun r => cells.getD (r * C + i) [] := by
+    rw [List.flatMap_map]
+    have : ∀ r ∈ List.range R, (cells.drop (r * C + i)).take 1 = [cells.getD (r * C + i) []] := by
+      intro r hr
+      apply drop_take_one
+      apply hb
+      simp only [List.mem_map, List.mem_range]
+      exact ⟨r, by simpa using hr, rfl⟩
+    rw [flatMap_congr' _ _ _ this]
+    exact flatMap_singleton_map _ _
+  simp only [List.map_map, Function.comp_def] at hv ⊢
+  rw [hv, hsel]
+  have hcnt : ((List.range R).map fun r =>
+        (MNT.ofCells R C cells).offset.getD (r * C + i + 1) 0 - (MNT.ofCells R C cells).offset.getD (r * C + i) 0)
+      = ((List.range R).map fun r => cells.getD (r * C + i) []).map List.length := by
+    simp only [List.map_map]
+    apply List.map_congr_left
+    intro r hr
+    simp only [Function.comp]
+    apply ofCells_count_at
+    apply hb
+    simp only [List.mem_map, List.mem_range]
+    exact ⟨r, by simpa using hr, rfl⟩
+  rw [hcnt, psums_eq]
+  rfl
 
 end TFVerif
